@@ -98,6 +98,7 @@ PatchClauses(e) ==
      <<"PatchIsSubregion", PatchIsSubregion(e)>>,
      <<"PatchPlacement", PatchPlacement(e)>>,
      <<"AssembleReproduces", e.assembled = 1>>,
+     <<"AssembleReproducesAnyData", e.assembled_patterns = 1>>,   \* ... also images with black blocks, masks, constant images
      <<"BlendAssembleTotal", e.blend # -1>>,                 \* blend_and_assemble() returns ...
      <<"BlendedReassemblyReproduces", e.blend # 0>>,          \* ... the base image (unmodified patches, weights sum to one)
      <<"PatchUpdateTotal", e.update # -1>>,                    \* set_image(new, i, j) followed by assemble() returns ...
